@@ -317,7 +317,10 @@ class Registry:
         key = f"{modname}.{attr}"
         if key in self.externals:
             x = self.externals[key]
-            return x(it) if callable(x) and not isinstance(x, V) else x
+            x = x(it) if callable(x) and not isinstance(x, V) else x
+            if isinstance(x, VNative):
+                x.external = True
+            return x
         if key in self.ext_classes or key in self.model_classes:
             return VExtClass(key)
         if modname in ("typing", "collections.abc", "__future__"):
